@@ -68,3 +68,14 @@ prop(
     level_note="script_len_range is taken as inclusive on both ends and the transaction script filter as exact (as ckb-indexer implements them); the dump decoder is part of the trusted base",
     assumptions=["ground truth is the store content (the property is about views of the index), decoded independently of service.rs"],
 )
+
+prop(
+    "C01", "exploration",
+    rule="one evaluation = one delivered message; judged are the messages labelled INVALID by construction (one mutation operator applied to the honest answer to the client's own outstanding request, "
+         "stale / cross-peer / replayed answers): trusted state (prove states, LAST_STATE, LAST_N_HEADERS, stored headers) must be byte-identical before and after; "
+         "a cell = (operator, section hit, peer state at delivery, outcome)",
+    sizes=tiers(16, 60, 70, 16, 4000, 900, min_evals=5000, min_cells=60),
+    technique="runtime monitoring: before/after digest of trusted state around every adversarial message; adversary = structural, field-level, byte-level and self-consistent single-flaw mutations of honest answers to the client's live random requests",
+    level_text="In generated sync histories (real Eaglesong PoW so that nonce rejection is observable, or dummy PoW; last-N 1..100; fresh, restarted and re-proving clients; shallow reorgs) every SendLastStateProof that differs from the honest answer to the outstanding request - header / proof item / chain root / uncles hash / extension altered, dropped, duplicated, swapped, replaced by a neighbour or by another branch, section boundaries shifted, re-generated consistent proofs with one header missing or a wrong sample, answers to earlier or other peers' requests, replays - left the trusted state byte-for-byte unchanged.",
+    level_note="labels come from construction, not from re-implementing the verifier; FlyClient's probabilistic guarantee (a flaw outside the sampled set) is out of reach of a per-run oracle",
+)
